@@ -170,6 +170,21 @@ func NewUniverse() *Universe {
 		tags: map[string]int{}, strConsts: map[string]string{}, boxFns: map[Sort]bool{}, funDecls: map[string]string{}, fieldIDs: map[string]int{}, arrAx: map[string]bool{}}
 }
 
+// useNonNilCount declares the counting function behind the spec builtin `nonnilcount` and its axioms.
+func (u *Universe) useNonNilCount() {
+	if _, ok := u.funDecls["nncnt"]; ok {
+		return
+	}
+	arr := arrSort(SInt, SSlice)
+	u.declFun("nncnt", fmt.Sprintf("(declare-fun nncnt (%s Int Int) Int)", arr))
+	nn := func(t string) string { return "(ite (= (sarr " + t + ") 0) 0 1)" }
+	u.axioms = append(u.axioms,
+		fmt.Sprintf("(assert (forall ((a %s) (i Int) (v Slice) (off Int) (n Int)) (! (=> (and (<= off i) (< i (+ off n))) (= (nncnt (store a i v) off n) (+ (nncnt a off n) (- %s %s)))) :pattern ((nncnt (store a i v) off n)))))", arr, nn("v"), nn("(select a i)")),
+		fmt.Sprintf("(assert (forall ((a %s) (off Int) (n Int)) (! (=> (>= n 0) (and (<= 0 (nncnt a off n)) (<= (nncnt a off n) n))) :pattern ((nncnt a off n)))))", arr),
+		fmt.Sprintf("(assert (forall ((a %s) (off Int) (n Int) (j Int)) (! (=> (and (>= n 0) (= (nncnt a off n) n) (<= off j) (< j (+ off n))) (not (= (sarr (select a j)) 0))) :pattern ((nncnt a off n) (select a j)))))", arr),
+		fmt.Sprintf("(assert (forall ((a %s) (off Int) (n Int)) (! (=> (forall ((j Int)) (=> (and (<= off j) (< j (+ off n))) (= (sarr (select a j)) 0))) (= (nncnt a off n) 0)) :pattern ((nncnt a off n)))))", arr))
+}
+
 func (u *Universe) declFun(name string, decl string) {
 	if _, ok := u.funDecls[name]; ok {
 		return
